@@ -1258,6 +1258,8 @@ fn extract(src: &Src, b: &Block, report: &mut Vec<serde_json::Value>, vacuity: b
                 if !b.contract.is_empty() {
                     col.push(open.0, open.0, format!("\n{}", indent(&b.contract, "\t\t")), "R3");
                 }
+                // edits already queued inside the body (e.g. inner attributes removed by R1) are dropped with the body
+                col.edits.retain(|e| !(e.start > open.0 && e.end <= close.1));
                 col.push(open.0, close.1, "{ unimplemented!() }".into(), "IMPORT");
             }
             Some(block) => {
